@@ -1,17 +1,19 @@
 (* C03 — the result contains exactly the requested features' columns.
    Property theorems only (proofs in Proofs/NamingP.v, Proofs/CollectionP.v).  Every statement is for ALL strings,
    all column sets, all request lists and all iteration orders of the Python sets involved (lists here).
+   The models describe /repo after the fix commits 069fedf (the request flag survives de-duplication) and 990998a
+   (request_order returns no column twice); the corresponding statements are now proved without any guard.
 
-   FULL STATEMENT (refuted on the faithful model in three places, see the *_refuted theorems):
-     for every request list req, processing order produced by the engine, step partition and step columns:
+   FULL STATEMENT:
+     for every request list req, order of the engine's add calls, step partition and step columns:
        forall s c, In c (returned table of step s) <-> In c (cols s) /\ exists requested r in step s, owner (fname r) c;
        a request name~x yields only columns owned by name~x;
-       with "alphabetical" the list is sorted; with "request_order" it follows req.
-   PROVED: the same outside the decidable domains
-     kf_flag_lost  (a requested feature arrives when an equal, unflagged filter/index feature is already stored),
+       with "alphabetical" the list is sorted; with "request_order" it follows req, each column once.
+   PROVED in full: the first line (C03_exact, C03_one_table, C03_order_independent), alphabetical, no duplicates.
+   Still refuted on the faithful model in two places (open known findings):
      kf_subcolumn  (a sub-column request whose base name is in feature_names_supported()),
-     kf_overlap    (two requested names own the same column; only matters for request_order),
-   and, for request_order, relative to the iteration order [iter] of the set the names travel in. *)
+     request_order relative to the request list: the result follows the iteration order [iter] of the SET the names
+     travel in, not the request list. *)
 From Coq Require Import List Bool String Ascii Arith Permutation Sorting.Sorted.
 Import ListNotations.
 Require Import MV.Model.Naming MV.Model.Collection MV.Spec.Columns MV.Proofs.NamingP MV.Proofs.CollectionP.
@@ -80,15 +82,10 @@ Theorem C03_request_order_refuted : exists req iter cols,
 Proof. exact request_order_refuted_l. Qed.
 Print Assumptions C03_request_order_refuted.
 
-Theorem C03_request_order_nodup_partial : forall iter cols, NoDup cols -> NoDup iter -> kf_overlap iter cols = false ->
-  NoDup (order_request iter (select cols iter)).
+(* no column is returned twice, for all inputs (was refuted before 990998a) *)
+Theorem C03_request_order_nodup : forall iter sel, NoDup (order_request iter sel).
 Proof. exact request_order_nodup_l. Qed.
-Print Assumptions C03_request_order_nodup_partial.
-
-Theorem C03_request_order_dup_refuted : exists iter cols,
-  NoDup iter /\ NoDup cols /\ kf_overlap iter cols = true /\ ~ NoDup (elements (identify iter cols ORequest)).
-Proof. exact request_order_dup_refuted_l. Qed.
-Print Assumptions C03_request_order_dup_refuted.
+Print Assumptions C03_request_order_nodup.
 
 (* ---------- sub-column requests (get_column_base_feature / set_feature_name) ---------- *)
 Theorem C03_base_feature : forall s,
@@ -112,11 +109,16 @@ Proof. exact subcolumn_refuted_l. Qed.
 Print Assumptions C03_subcolumn_refuted.
 
 (* ---------- the collection (add_feature_to_collection) and the flag ---------- *)
-(* a feature is stored iff it is the first of its equality class in the order of the calls *)
-Theorem C03_collect_first : forall order g,
-  In g (collect order) <-> exists l1 l2, order = l1 ++ g :: l2 /\ (forall h, In h l1 -> feq g h = false).
-Proof. exact collect_first_l. Qed.
-Print Assumptions C03_collect_first.
+(* complete description of the collection after any sequence of calls: one feature per equality class that occurs, flagged
+   iff some call of that class was flagged (a feature is determined by group, name, key and flag) *)
+Theorem C03_collect_spec : forall order g,
+  In g (collect order) <-> (exists r, In r order /\ feq r g = true) /\ fflag g = any_flagged_eq order g.
+Proof. exact collect_spec_l. Qed.
+Print Assumptions C03_collect_spec.
+
+Theorem C03_collect_distinct : forall order a b, In a (collect order) -> In b (collect order) -> feq a b = true -> a = b.
+Proof. exact collect_distinct_l. Qed.
+Print Assumptions C03_collect_distinct.
 
 (* the calls the modelled engine makes are such a fold *)
 Theorem C03_process_is_fold : forall fuel e req,
@@ -124,75 +126,61 @@ Theorem C03_process_is_fold : forall fuel e req,
 Proof. exact process_request_is_fold_l. Qed.
 Print Assumptions C03_process_is_fold.
 
-(* FULL: without the hypothesis on kf_flag_lost *)
-Theorem C03_flag_preserved_partial : forall order r, kf_flag_lost order = false -> In r order -> fflag r = true ->
+(* the requested flag is preserved for every insertion order (was refuted before 069fedf) *)
+Theorem C03_flag_preserved : forall order r, In r order -> fflag r = true ->
   exists g, In g (collect order) /\ feq g r = true /\ fflag g = true.
-Proof. exact flag_preserved_partial_l. Qed.
-Print Assumptions C03_flag_preserved_partial.
+Proof. exact flag_preserved_l. Qed.
+Print Assumptions C03_flag_preserved.
 
-(* request [a; b] with a global filter on b: trace a, b(filter), b(requested), b(filter); b is not returned *)
-Theorem C03_flag_lost_refuted :
-  map fst (snd (process_request 3 wit_env_filter ["a"; "b"])) = wit_order /\
-  (forall r, In r wit_req -> fflag r = true /\ In r wit_order) /\
-  (forall g, In g wit_order -> fflag g = true -> In g wit_req) /\
-  (forall r r', In r wit_req -> In r' wit_req -> feq r r' = true -> r = r') /\
-  kf_flag_lost wit_order = true /\
-  exists s c, In c ["a"; "b"] /\ (exists r, In r wit_req /\ 0 = s /\ owner (fname r) c) /\
-              ~ In c (step_table (fun _ => ["a"; "b"]) (fun _ => 0) (collect wit_order) s).
-Proof. split; [exact wit_order_is_trace | exact flag_lost_refuted_l]. Qed.
-Print Assumptions C03_flag_lost_refuted.
-
-(* the same request in the other order returns b; the same happens with an index column when a link is present *)
-Theorem C03_request_list_order_dependence_refuted :
-  step_table (fun _ => ["a"; "b"]) (fun _ => 0) (fst (process_request 3 wit_env_filter ["a"; "b"])) 0 = ["a"] /\
+(* the former witnesses: [a; b] with a global filter on b, [a; k] with a link on index column k, both request orders *)
+Theorem C03_flag_kept_examples :
+  map fst (snd (process_request 3 wit_env_filter ["a"; "b"])) = [mkf "a" true; mkf "b" false; mkf "b" true; mkf "b" false] /\
+  fst (process_request 3 wit_env_filter ["a"; "b"]) = [mkf "a" true; mkf "b" true] /\
+  step_table (fun _ => ["a"; "b"]) (fun _ => 0) (fst (process_request 3 wit_env_filter ["a"; "b"])) 0 = ["a"; "b"] /\
   step_table (fun _ => ["a"; "b"]) (fun _ => 0) (fst (process_request 3 wit_env_filter ["b"; "a"])) 0 = ["a"; "b"] /\
-  kf_flag_lost (map fst (snd (process_request 3 wit_env_filter ["b"; "a"]))) = false /\
-  step_table (fun _ => ["k"; "a"]) (fun _ => 0) (fst (process_request 3 wit_env_index ["a"; "k"])) 0 = ["a"] /\
-  kf_flag_lost (map fst (snd (process_request 3 wit_env_index ["a"; "k"]))) = true /\
+  step_table (fun _ => ["k"; "a"]) (fun _ => 0) (fst (process_request 3 wit_env_index ["a"; "k"])) 0 = ["k"; "a"] /\
   step_table (fun _ => ["k"; "a"]) (fun _ => 0) (fst (process_request 3 wit_env_index ["k"; "a"])) 0 = ["k"; "a"].
-Proof. exact flag_lost_order_dependence_l. Qed.
-Print Assumptions C03_request_list_order_dependence_refuted.
+Proof. exact flag_kept_examples_l. Qed.
+Print Assumptions C03_flag_kept_examples.
 
 (* ---------- exactly the requested columns ---------- *)
-(* order : the engine's calls; req : the requested features (flagged, pairwise different); step : the step (FeatureSet)
-   a stored feature belongs to; cols s : the columns the step's compute framework holds when the result is taken *)
-Theorem C03_exact_partial : forall order req : list feature,
+(* order : the engine's add calls, in any order; req : the requested features (exactly the flagged calls);
+   step : the step (FeatureSet) a feature belongs to, a function of what feature equality compares;
+   cols s : the columns the step's compute framework holds when the result is taken *)
+Theorem C03_exact : forall order req : list feature,
   (forall r, In r req -> fflag r = true /\ In r order) ->
   (forall g, In g order -> fflag g = true -> In g req) ->
-  (forall r r', In r req -> In r' req -> feq r r' = true -> r = r') ->
-  kf_flag_lost order = false ->
-  forall (step : feature -> nat) (cols : nat -> list string) s c,
+  forall (step : feature -> nat) (cols : nat -> list string),
+  (forall a b, feq a b = true -> step a = step b) ->
+  forall s c,
     In c (step_table cols step (collect order) s) <->
     In c (cols s) /\ exists r, In r req /\ step r = s /\ owner (fname r) c.
-Proof. exact exact_partial_l. Qed.
-Print Assumptions C03_exact_partial.
+Proof. exact exact_l. Qed.
+Print Assumptions C03_exact.
 
 (* a requested name is asked for in exactly one step's table *)
-Theorem C03_one_table_partial : forall order req : list feature,
+Theorem C03_one_table : forall order req : list feature,
   (forall r, In r req -> fflag r = true /\ In r order) ->
   (forall g, In g order -> fflag g = true -> In g req) ->
-  (forall r r', In r req -> In r' req -> feq r r' = true -> r = r') ->
-  kf_flag_lost order = false ->
-  forall step : feature -> nat,
-  (forall r r', In r req -> In r' req -> fname r = fname r' -> r = r') ->
+  forall (step : feature -> nat), (forall a b, feq a b = true -> step a = step b) ->
+  (forall r r', In r req -> In r' req -> fname r = fname r' -> step r = step r') ->
   forall r, In r req -> forall s, In (fname r) (requested_names (step_features step (collect order) s)) <-> s = step r.
 Proof. exact one_table_l. Qed.
-Print Assumptions C03_one_table_partial.
+Print Assumptions C03_one_table.
 
 (* the tables do not depend on the order of the request list / of the engine's calls *)
-Theorem C03_order_independent_partial : forall order1 req1 order2 req2 step cols,
+Theorem C03_order_independent : forall order1 req1 order2 req2 step cols,
   (forall r, In r req1 -> fflag r = true /\ In r order1) -> (forall g, In g order1 -> fflag g = true -> In g req1) ->
-  (forall r r', In r req1 -> In r' req1 -> feq r r' = true -> r = r') -> kf_flag_lost order1 = false ->
   (forall r, In r req2 -> fflag r = true /\ In r order2) -> (forall g, In g order2 -> fflag g = true -> In g req2) ->
-  (forall r r', In r req2 -> In r' req2 -> feq r r' = true -> r = r') -> kf_flag_lost order2 = false ->
+  (forall a b, feq a b = true -> step a = step b) ->
   (forall r, In r req1 <-> In r req2) ->
   forall s c, In c (step_table cols step (collect order1) s) <-> In c (step_table cols step (collect order2) s).
 Proof. exact order_independent_l. Qed.
-Print Assumptions C03_order_independent_partial.
+Print Assumptions C03_order_independent.
 
 (* ---------- non-vacuity ---------- *)
 (* root group 0: a, b, m~0, m~1 (index k, link to group 2); group 1: p with input a; filter on b;
-   request [b; p; m~1]: nothing lost, three calls flagged, dependency a and the aux features unflagged *)
+   request [b; p; m~1]: three calls flagged, dependency a and the aux features unflagged *)
 Definition ex_env : genv :=
   {| group_of := fun n => if String.eqb n "p" then 1 else 0;
      supported := fun g => if Nat.eqb g 1 then ["p"] else [];
@@ -205,13 +193,12 @@ Definition ex_cols : list string := ["k"; "a"; "b"; "m~0"; "m~1"].
 Example C03_examples :
   let st := process_request 4 ex_env ["b"; "p"; "m~1"] in
   let order := map fst (snd st) in
-  kf_flag_lost order = false /\
   List.length order = 10 /\
   step_table (fun s => if Nat.eqb s 0 then ex_cols else ["a"; "p"]) fgrp (fst st) 0 = ["b"; "m~1"] /\
   step_table (fun s => if Nat.eqb s 0 then ex_cols else ["a"; "p"]) fgrp (fst st) 1 = ["p"] /\
   identify ["m"; "b"] ex_cols ORequest = RList ["m~0"; "m~1"; "b"] /\
   identify ["m"; "b"] ex_cols OAlpha = RList ["b"; "m~0"; "m~1"] /\
   identify ["zz"] ex_cols ONone = RErr /\
-  kf_overlap ["m"; "b"] ex_cols = false /\
+  identify ["m"; "m~1"] ex_cols ORequest = RList ["m~0"; "m~1"] /\
   set_feature_name ["p"] "p~1" = "p" /\ set_feature_name [] "m~1" = "m~1" /\ base_feature "m~1~x" = "m".
 Proof. vm_compute. repeat split. Qed.
